@@ -342,7 +342,7 @@ def receiveCheque (e : TrEnv) (st : TrState) (peer : Bytes) (c : Option Cheque) 
   | none => pure (.err, st)
   | some chain =>
     let ch ← deref c                                    -- cheque.Beneficiary
-    if ch.beneficiary ≠ chain && ch.recipient ≠ st.self then pure (.err, st) else
+    if ch.beneficiary ≠ chain || ch.recipient ≠ st.self then pure (.err, st) else
     if ch.recipient ≠ st.self then pure (.err, st) else
     match e.recover ch with
     | none => pure (.err, st)
